@@ -3,6 +3,7 @@ from __future__ import annotations
 
 import math
 import random
+import warnings
 from fractions import Fraction
 
 import numpy as np
@@ -354,7 +355,127 @@ def factory_case(ctx, index: int, rng: random.Random):
     rec.case(desc, _non_dyadic(float(bins[0, 1] - bins[0, 0])), cls=f"factory/{method}")
 
 
+def mixed_axes_case(ctx, index, rng: random.Random):
+    """An adaptive fixed-width axis beside an axis with fixed bins (adaptive x over fixed categories in y, the adaptive radius of a
+    polar histogram over fixed sectors): with every value inside the fixed axis nothing may be missed - the adaptive axis grows, by
+    single fills and by batches alike."""
+    import physt
+    from physt.binnings import FixedWidthBinning, StaticBinning
+    from physt.histogram_nd import Histogram2D
+
+    rec = ctx.rec
+    rec.mon("C04.history.final")
+    w = rng.choice([0.5, 1.0, 2.5, 0.1])
+    yed = np.array([0.0, 1.0, 2.0, 3.0])
+    order = rng.choice(["adaptive_first", "static_first"])
+    how = rng.choice(["constructor", "facade"])
+
+    def pts(k):
+        xs = [w * (rng.randint(-20, 20) + rng.choice([0.0, 0.5, rng.random()])) for _ in range(k)]
+        ys = [rng.choice([0.5, 1.5, 2.5, 0.0, 2.999]) for _ in range(k)]
+        return np.array(list(zip(xs, ys)) if order == "adaptive_first" else list(zip(ys, xs)), dtype=float).reshape(k, 2)
+
+    first = pts(rng.randint(1, 4))
+    try:
+        with warnings.catch_warnings():
+            warnings.simplefilter("ignore")
+            if how == "constructor":
+                bs = [FixedWidthBinning(bin_width=w, adaptive=True), StaticBinning(np.stack([yed[:-1], yed[1:]], axis=1))]
+                h = Histogram2D(bs if order == "adaptive_first" else bs[::-1])
+                h.fill_n(first)
+            else:
+                spec = ["fixed_width", yed.copy()] if order == "adaptive_first" else [yed.copy(), "fixed_width"]
+                h = physt.h(first, spec, bin_width=[w, None] if order == "adaptive_first" else [None, w], adaptive=True)
+            everything = [first]
+            for _ in range(rng.randint(1, 5)):
+                batch = pts(rng.randint(1, 6))
+                if rng.random() < 0.5:
+                    h.fill_n(batch)
+                else:
+                    for row in batch:
+                        h.fill(row)
+                everything.append(batch)
+    except Exception as ex:
+        rec.fail(monitor="C04.history.final", op="mixed axes", symptom=f"an adaptive axis beside a fixed one raised {type(ex).__name__}", diff=["raised"], detail={"error": str(ex)[:160], "how": how, "order": order})
+        return
+    allv = np.vstack(everything)
+    ax = 0 if order == "adaptive_first" else 1
+    with attach.quiet():
+        ed = [np.asarray(e_, dtype=float) for e_ in h.edges]
+        ref, _, _ = np.histogram2d(allv[:, 0], allv[:, 1], bins=ed)
+        # (numpy closes the last bin of every axis: values on the last edge of the fixed axis are not generated)
+        problems = []
+        if float(h.missed) != 0:
+            problems.append(("missed", float(h.missed)))
+        if float(h.total) != len(allv):
+            problems.append(("total", float(h.total), len(allv)))
+        if not (ed[ax][0] <= allv[:, ax].min() and allv[:, ax].max() < ed[ax][-1]):
+            problems.append(("span", [float(ed[ax][0]), float(ed[ax][-1])], [float(allv[:, ax].min()), float(allv[:, ax].max())]))
+        if np.asarray(h.frequencies).shape == ref.shape and not np.array_equal(np.asarray(h.frequencies, dtype=float), ref):
+            problems.append(("contents",))
+        if problems:
+            rec.fail(monitor="C04.history.final", op="mixed axes", symptom="an adaptive axis beside a fixed one lost values (not all of them are in a bin)", diff=["missed", "total"],
+                     detail={"problems": problems[:3], "how": how, "order": order, "width": w})
+    rec.case(["mixed", order, how, w, allv.tolist()[:8]], True, cls=f"mixed_axes/{order}/{how}")
+
+
+def document_then_fill_case(ctx, index, rng: random.Random):
+    """A (still empty, or pre-filled) adaptive histogram written to a document and read back grows on the same grid as the original:
+    the origin of the grid (shift) belongs to the histogram whether or not it has bins yet."""
+    import physt
+    import physt.io
+
+    rec = ctx.rec
+    rec.mon("C04.history.final")
+    w = rng.choice([1.0, 0.5, 2.5, 0.2])
+    kind = rng.choice(["integer", "shift", "shift", "plain"])
+    shift = 0.0
+    d = rng.choice([1, 1, 2])
+    vals = np.array([[w * (rng.randint(-8, 8) + rng.random()) for _ in range(d)] for _ in range(rng.randint(1, 6))])
+    prefilled = rng.random() < 0.3
+    try:
+        with warnings.catch_warnings():
+            warnings.simplefilter("ignore")
+            first = vals[:1] if prefilled else None
+            if kind == "integer":
+                w, shift = 1.0, 0.5
+                h = physt.h1(None if first is None else first[:, 0], "integer", adaptive=True) if d == 1 else physt.h(first, "integer", adaptive=True, dim=2)
+            else:
+                shift = rng.choice([0.25 * w, 0.5 * w, 0.1]) if kind == "shift" else 0.0
+                kw = {"bin_width": w, "adaptive": True, **({"bin_shift": shift} if kind == "shift" else {})}
+                h = physt.h1(None if first is None else first[:, 0], "fixed_width", **kw) if d == 1 else physt.h(first, "fixed_width", dim=2, **kw)
+            route = rng.choice(["json", "dict", "copy"])
+            if route == "json":
+                g = physt.io.parse_json(h.to_json())
+            elif route == "dict":
+                g = type(h).from_dict(h.to_dict())
+            else:
+                g = h.copy()
+            for x in (h, g):
+                x.fill_n(vals[:, 0] if d == 1 else vals)
+    except Exception as ex:
+        rec.fail(monitor="C04.history.final", op="document then fill", symptom=f"an adaptive histogram read from a document could not be filled: {type(ex).__name__}", diff=["raised"],
+                 detail={"error": str(ex)[:160], "kind": kind, "d": d})
+        return
+    with attach.quiet():
+        bh = [np.asarray(h.bins)] if d == 1 else [np.asarray(b) for b in h.bins]
+        bg = [np.asarray(g.bins)] if d == 1 else [np.asarray(b) for b in g.bins]
+        same = all(a.shape == b.shape and np.array_equal(a, b) for a, b in zip(bh, bg)) and np.array_equal(np.asarray(h.frequencies), np.asarray(g.frequencies))
+        if not same:
+            rec.fail(monitor="C04.history.final", op="document then fill", symptom="an adaptive histogram read back from a document grows on another grid than the original", diff=["bins"],
+                     detail={"kind": kind, "route": route, "width": w, "shift": shift, "original": bh[0].ravel()[:6].tolist(), "read_back": bg[0].ravel()[:6].tolist(), "prefilled": prefilled})
+        for b in bg:
+            k_ = (b[:, 0] - shift) / w
+            if len(b) and not np.allclose(k_, np.round(k_), atol=1e-6):
+                rec.fail(monitor="C04.history.final", op="document then fill", symptom="bins of the read-back histogram are not on the grid origin + k * width", diff=["bins"],
+                         detail={"kind": kind, "route": route, "width": w, "shift": shift, "left_edges": b[:4, 0].tolist()})
+                break
+    rec.case(["doc_fill", kind, d, w, shift, prefilled], True, cls=f"document_then_fill/{kind}/{d}d/{route}")
+
+
 def run(ctx):
+    ctx.run_cases(ctx.scale(60, 400), mixed_axes_case, salt="mixed")
+    ctx.run_cases(ctx.scale(80, 400), document_then_fill_case, salt="docfill")
     attach_monitors()
     ctx.run_cases(ctx.scale(350, 3500), one_history, salt="hist")
     ctx.run_cases(ctx.scale(300, 3000), factory_case, salt="factory")
